@@ -2484,10 +2484,9 @@ class TagCollection(list):
         for tag in self:
             if tag.id == _id:
                 return tag
-            for subtag in tag.children:
-                tmp = subtag.getElementById(_id)
-                if tmp is not None:
-                    return tmp
+            tmp = tag.getElementById(_id)
+            if tmp is not None:
+                return tmp
         return None
 
     def getElementsByAttr(self, attr, value):
